@@ -227,3 +227,85 @@ func VerifBatchQuiet(L int, batchSize int, calls int) {
 		out.Close()
 	}
 }
+
+// vTimedSrc: item i becomes available gap[i] after the previous one was taken; then silence.
+type vTimedSrc struct {
+	gaps   []time.Duration
+	pos    int
+	handed []time.Time
+}
+
+func (s *vTimedSrc) Next(ctx context.Context) (int, error) {
+	if s.pos >= len(s.gaps) {
+		<-ctx.Done()
+		return 0, ctx.Err()
+	}
+	time.Sleep(s.gaps[s.pos])
+	now := time.Now()
+	vAtomic(func() { s.handed = append(s.handed, now) })
+	s.pos++
+	return s.pos - 1, nil
+}
+func (s *vTimedSrc) Close() {}
+
+// VerifBatchPrompt: the "handed to a waiting consumer rather than held back" clause as a latency
+// bound, under the discrete-event reading of the time model (@prompt=1: computation takes no
+// time, the clock moves only when everybody is blocked, to the earliest due timer). Items arrive
+// after symbolic gaps, the consumer pauses a symbolic time before each Next. Every batch must be
+// handed out no later than max(the consumer's arrival, start + maxWait), where start is when
+// the batcher could first have had the batch's oldest item (its arrival, or the hand-over of the
+// previous batch if the batcher was still holding that). The lower bound (underfilled only after
+// maxWait) and the partition assertions are checked as well.
+// args: items L, batchSize
+//verif:case C11 quick VerifBatchPrompt 1..3 2 @prompt=1 @fires=12 @noreplay=1 @arith=1
+//verif:case C11 quick VerifBatchPrompt 3 3 @prompt=1 @fires=12 @noreplay=1 @arith=1
+//verif:case C11 thorough VerifBatchPrompt 4 2..3 @prompt=1 @fires=16 @noreplay=1 @arith=1
+//verif:case C11 thorough VerifBatchPrompt 5 2 @prompt=1 @fires=20 @noreplay=1 @arith=1
+func VerifBatchPrompt(L int, batchSize int) {
+	src := &vTimedSrc{}
+	for i := 0; i < L; i++ {
+		g := time.Duration(vNondetInt("gap"))
+		vAssume(vAnd(g >= 0, g < 1<<40))
+		src.gaps = append(src.gaps, g)
+	}
+	maxWait := time.Duration(vNondetInt("maxWait"))
+	vAssume(vAnd(maxWait > 0, maxWait < 1<<40))
+	out := Batch[int](src, maxWait, batchSize)
+	ctx := context.Background()
+	got := 0
+	var prevT time.Time
+	for call := 0; got < L; call++ {
+		d := time.Duration(vNondetInt("pause"))
+		vAssume(vAnd(d >= 0, d < 1<<40))
+		time.Sleep(d)
+		w := time.Now()
+		batch, err := out.Next(ctx)
+		t := time.Now()
+		vAssert(err == nil, "C11:batchprompt/no-error-from-a-silent-source")
+		vAssert(len(batch) >= 1, "C11:batch/non-empty")
+		vAssert(len(batch) <= batchSize, "C11:batch/at-most-batchsize")
+		if err != nil || len(batch) == 0 {
+			return
+		}
+		for i, v := range batch {
+			vAssert(v == got+i, "C11:batch/items-in-source-order-nothing-lost-or-duplicated")
+		}
+		var oldest time.Time
+		vAtomic(func() { oldest = src.handed[got] })
+		if len(batch) < batchSize {
+			vAssert(t.Sub(oldest) >= maxWait, "C11:batch/underfilled-batch-only-after-maxwait")
+		}
+		start := oldest
+		if call > 0 && prevT.After(start) {
+			start = prevT
+		}
+		due := start.Add(maxWait)
+		if w.After(due) {
+			due = w
+		}
+		vAssert(!t.After(due), "C11:batchprompt/handed-to-the-waiting-consumer-once-maxwait-has-passed")
+		prevT = t
+		got += len(batch)
+	}
+	vCover("batch-prompt")
+}
